@@ -61,6 +61,9 @@ pub fn unclaim(p: &Params, mut prog: Program) -> Program {
     if p.get("noclaim", 0) != 0 {
         prog.claim = None;
     }
+    if let Some(c) = claim_of(p) {
+        prog.claim = Some(c);
+    }
     prog
 }
 
